@@ -61,7 +61,8 @@ impl<'h> FindMatchesImpl<'h> {
             self.char_indices = self.input[self.input.len()..self.input.len()].char_indices();
         }
         self.last_position = 0;
-        self.offset = offset;
+        // The offset is clamped to the length of the haystack.
+        self.offset = offset.min(self.input.len());
     }
 
     /// Returns the next match in the haystack.
